@@ -11,6 +11,8 @@
 // mod error_report;
 mod api;
 mod source_file;
+#[cfg(feature = "oq3_verif")]
+pub mod verif_seam;
 
 pub use source_file::{ErrorTrait, SourceFile, SourceString, SourceTrait};
 
